@@ -25,6 +25,14 @@ def prepare(ck, prop_file, theorem_names):
     bad_gen = [g for g in gens if g[1] != 0]
     ck.oblige("translators: gen/*.v regenerated from /repo's current sources (%s)" % ", ".join(g[0] for g in gens),
               not bad_gen, str(bad_gen)[:500])
+    try:
+        fb = [l for l in open(os.path.join(COQ, "gen", "FALLBACKS.txt")).read().split("\n") if l]
+    except OSError:
+        fb = []
+    ck.extra["translator_fallbacks"] = fb
+    if fb:
+        ck.assumptions.append("translators: the shape of %s was not recognised in the current sources; the model keeps the value read from the "
+                              "unchanged tree (coq/gen_baseline) and the correspondence check decides whether the implementation still behaves like it" % ", ".join(fb))
     ok, log = build.coq_make([prop_file + "o"])
     ck.checker_cmds.append("make -C coq -j16 %so" % prop_file)
     ck.oblige("coq: %s compile (%so)" % (", ".join(theorem_names), prop_file), ok, log[-2500:] if not ok else "")
